@@ -598,6 +598,22 @@ func hostileContainers() map[string][]byte {
 	out["car-section-32MiB-claimed"] = append(append([]byte{}, hdr...), vi(32<<20)...)
 	out["car-header-2^40"] = vi(1 << 40)
 	out["car-header-huge-varint"] = bytes.Repeat([]byte{0xff}, 12)
+	// a CAR header / a CBOR container that is well-formed DAG-CBOR with a value of the WRONG KIND where a list is expected
+	{
+		kinds := map[string][]byte{"null": {0xf6}, "true": {0xf5}, "int": {0x00}, "negint": {0x20}, "bigint": {0x1b, 0xff, 0xff, 0xff, 0xff, 0xff, 0xff, 0xff, 0xff},
+			"float": {0xfb, 0x3f, 0xf8, 0, 0, 0, 0, 0, 0}, "string": {0x61, 'x'}, "bytes": {0x41, 0x01}, "map": {0xa0}, "list-of-ints": {0x82, 0x01, 0x02},
+			"link": append([]byte{0xd8, 0x2a, 0x58, 0x25, 0x00}, missingCid(1).Bytes()...), "empty-list": {0x80}}
+		section := func(b []byte) []byte { return append(vi(uint64(len(b))), b...) }
+		for name, k := range kinds {
+			hdr := append(append([]byte{0xa2, 0x65, 'r', 'o', 'o', 't', 's'}, k...), 0x67, 'v', 'e', 'r', 's', 'i', 'o', 'n', 0x01)
+			out["car-header-roots-is-"+name] = section(hdr)
+			hdr2 := append([]byte{0xa2, 0x65, 'r', 'o', 'o', 't', 's', 0x80, 0x67, 'v', 'e', 'r', 's', 'i', 'o', 'n'}, k...)
+			out["car-header-version-is-"+name] = section(hdr2)
+			out["car-header-is-"+name] = section(k)
+			out["cbor-ctn-value-is-"+name] = append([]byte{0xa1, 0x66, 'c', 't', 'n', '-', 'v', '1'}, k...)
+			out["cbor-ctn-entry-is-"+name] = append([]byte{0xa1, 0x66, 'c', 't', 'n', '-', 'v', '1', 0x81}, k...)
+		}
+	}
 	// CBOR: a list / map / byte string head announcing 2^40 elements without content
 	out["cbor-map-list-2^40"] = append([]byte{0xa1, 0x66, 'c', 't', 'n', '-', 'v', '1', 0x9b}, []byte{0, 0, 1, 0, 0, 0, 0, 0}...)
 	out["cbor-bytes-2^40"] = append([]byte{0xa1, 0x66, 'c', 't', 'n', '-', 'v', '1', 0x81, 0x5b}, []byte{0, 0, 1, 0, 0, 0, 0, 0}...)
